@@ -517,8 +517,19 @@ static void parse_new_client(int id, int argc, char *argv[])
     struct iauth_request *req;
     struct set_node *node;
     struct timeval timeout;
+    irc_inaddr remote_addr;
+    irc_inaddr local_addr;
 
     if (argc < 5)
+        return;
+
+    /* Nothing could ever be said about a client with a negative id (-1
+     * means "no client" in every later message), or one whose addresses
+     * we cannot read: what irc_pton() leaves behind when it gives up is
+     * not the address that was announced. */
+    if ((id < 0)
+        || !irc_pton(&remote_addr, NULL, argv[1], 0)
+        || !irc_pton(&local_addr, NULL, argv[3], 0))
         return;
 
     /* Allocate, populate and index the request descriptor. */
@@ -528,10 +539,10 @@ static void parse_new_client(int id, int argc, char *argv[])
     req->client = id;
     req->serial = ++iauth_serial;
     req->state = IAUTH_REGISTER;
-    irc_pton(&req->remote_addr, NULL, argv[1], 0);
+    req->remote_addr = remote_addr;
     irc_ntop(req->text_addr, sizeof(req->text_addr), &req->remote_addr);
     req->remote_port = strtol(argv[2], NULL, 10);
-    irc_pton(&req->local_addr, NULL, argv[3], 0);
+    req->local_addr = local_addr;
     req->local_port = strtol(argv[4], NULL, 10);
     req->data.compare = set_compare_voidp;
     set_insert(iauth_reqs, node);
